@@ -1,10 +1,16 @@
 #!/bin/sh
 # Build the whole framework from files on disk, offline: Lean project (models, theorems,
-# drivers) and the Rust harness against /repo's working tree.
-set -e
+# drivers) and the Rust harness against /repo's working tree. A part that fails to build is
+# reported by the check that needs it, so this script carries on and always exits 0 unless the
+# tool-chains themselves are missing.
 cd "$(dirname "$0")"
 export CARGO_NET_OFFLINE=true
+command -v lake >/dev/null || { echo "lake not found"; exit 1; }
+command -v cargo >/dev/null || { echo "cargo not found"; exit 1; }
 python3 translate/run_all.py
 DRV=$(python3 checks/list.py drivers)
-(cd lean && lake build GluonModel $DRV)
-(cd harness && cargo build --offline --bins)
+(cd lean && lake build GluonModel $DRV) || echo "setup: some Lean targets failed (reported per check)"
+BINS=""
+for b in $(python3 checks/list.py harness); do BINS="$BINS --bin $b"; done
+(cd harness && cargo build --offline $BINS) || echo "setup: harness build failed (reported per check)"
+exit 0
